@@ -40,9 +40,23 @@ def mk(cfg, world):
         kw["class_thresholds"] = cts
     if cfg.get("extra_trip"):
         kw["trip_on"] = trip | {EC[k] for k in cfg["extra_trip"]}
+    eff = kw["trip_on"]
+    if cfg.get("trip_mode") == "default":
+        del kw["trip_on"]  # the library's documented default {TRANSIENT, SERVER_ERROR}
+        eff = {EC.TRANSIENT, EC.SERVER_ERROR}
+    elif cfg.get("trip_mode") == "none-arg":
+        kw["trip_on"] = None
+        eff = {EC.TRANSIENT, EC.SERVER_ERROR}
+    elif cfg.get("trip_mode") == "empty":
+        kw["trip_on"] = rng_empty(cfg)  # explicitly empty: only class thresholds can trip
+        eff = set()
     real = CircuitBreaker(**kw)  # default clock argument = interposed time.monotonic
-    model = BreakerModel(threshold=cfg["threshold"], window=cfg["window"], recovery=cfg["recovery"], trip_on={k.name for k in kw["trip_on"]}, class_thresholds={k.name: v for k, v in cts.items()})
+    model = BreakerModel(threshold=cfg["threshold"], window=cfg["window"], recovery=cfg["recovery"], trip_on={k.name for k in eff}, class_thresholds={k.name: v for k, v in cts.items()})
     return real, model
+
+
+def rng_empty(cfg):
+    return [set(), frozenset(), [], ()][cfg.get("empty_kind", 0) % 4]
 
 
 def alphabet(cfg):
@@ -153,7 +167,16 @@ def macro_history(rng, cfg):
             ops.append(("fail", k if rng.random() < 0.8 else rng.choice(["TRANSIENT", "SERVER_ERROR"])))
             if rng.random() < 0.3:
                 ops.append(("adv", rng.choice([G, w / 2, 0.0])))
-        ops.append(("adv", rng.choice([r, r + G, r - G, r + G, 2 * r])))
+        if rng.random() < 0.35:
+            # a late failure recorded while the circuit is (probably) open must not restart the timeout
+            a = rng.choice([G, r / 2, r - G])
+            ops.append(("adv", a))
+            ops.append(("fail", rng.choice(["TRANSIENT", "SERVER_ERROR", "PERMANENT"])))
+            if rng.random() < 0.3:
+                ops.append(("success",))
+            ops.append(("adv", rng.choice([r - a + G, r - a - G, r - a + G])))
+        else:
+            ops.append(("adv", rng.choice([r, r + G, r - G, r + G, 2 * r])))
         ops.append(("allow",))
         if rng.random() < 0.3:
             ops.append(("allow",))
@@ -201,6 +224,10 @@ def work(ctx, tier):
                 cfg["threshold"] = rng.randint(1, 6)
             if rng.random() < 0.3:
                 cfg["extra_trip"] = rng.sample(["UNKNOWN", "RATE_LIMIT", "CONCURRENCY", "AUTH"], rng.randint(1, 3))
+            elif rng.random() < 0.4:
+                cfg["trip_mode"] = rng.choice(["default", "none-arg", "empty"])
+                cfg["empty_kind"] = rng.randrange(4)
+            ctx.cnt["trip_mode:" + cfg.get("trip_mode", "explicit")] += 1
             alpha = alphabet(cfg) + [("fail", "UNKNOWN"), ("fail", "RATE_LIMIT"), ("adv", 0.0), ("adv", cfg["window"] * 3)]
             weights = [3 if o[0] == "fail" else 2 if o[0] == "allow" else 1 for o in alpha]
             ops = rng.choices(alpha, weights=weights, k=60)
@@ -211,6 +238,10 @@ def work(ctx, tier):
         m = (6000 if tier == "quick" else 200000) // ctx.nshards
         for k in range(m):
             cfg = dict(rng.choice(CONFIGS))
+            if rng.random() < 0.3:
+                cfg["trip_mode"] = rng.choice(["default", "none-arg", "empty"])
+                cfg["empty_kind"] = rng.randrange(4)
+            ctx.cnt["trip_mode:" + cfg.get("trip_mode", "explicit")] += 1
             ops = macro_history(rng, cfg)
             run_history(ctx, cfg, ops, viol, world)
             ctx.cnt["macro_histories"] += 1
@@ -230,6 +261,9 @@ def conclude(ctx):
         "op:fail:half_open:opened": (ctx.cnt["op:fail:half_open:opened"], 100),
         "op:success:half_open": (ctx.cnt["op:success:half_open"], 100),
         "clock_reads": (ctx.cnt["clock_reads"], 1000),
+        "trip_mode:default": (ctx.cnt["trip_mode:default"], 100),
+        "trip_mode:empty": (ctx.cnt["trip_mode:empty"], 100),
+        "op:fail:open": (ctx.cnt["op:fail:open"], 500),
     }
     L = 4 if ctx.tier == "quick" else 6
     return dict(
